@@ -732,7 +732,7 @@ def sib10(ctx, pid):
     ok = False
     why = "serialize does not return <literal prefix + repr(list of encoded prefixes)>.encode()"
     if len(rets) == 1:
-        rv = rets[0].value
+        rv = util.ret_deref(ser, rets[0])
         if isinstance(rv, ast.Call) and isinstance(rv.func, ast.Attribute) and rv.func.attr == "encode" and not rv.args and isinstance(rv.func.value, ast.JoinedStr):
             js = rv.func.value
             consts = [v for v in js.values if isinstance(v, ast.Constant)]
